@@ -1098,10 +1098,10 @@ fn gen_anim6(r: &mut Rng, n: usize, out: &mut dyn Write) {
                 }
             }
         }
-        // many small steps against one big one: 257 / 1025 advances of 1/64 s (rarely 65 537 of 1/1024 s) in one state —
+        // many small steps against one big one: 257 / 1025 advances of 1/64 s (rarely 65 537 of 1/512 s) in one state —
         // call counters and narrow accumulators wrap only there; and one very long step (2 h) against two halves
         if r.chance(1, 20) || r.chance(1, 2000) {
-            let (n, dt) = if r.chance(1, 40) { (65_537usize, 1.0f32 / 1024.0) } else { (r.pick(&[257usize, 1025]), 1.0f32 / 64.0) };
+            let (n, dt) = if r.chance(1, 40) { (65_537usize, 1.0f32 / 512.0)     /* 1/512 s = 1 953 125 ns exactly; 1/1024 s is not a whole number of nanoseconds */ } else { (r.pick(&[257usize, 1025]), 1.0f32 / 64.0) };
             for _ in 0..n { writeln!(out, "adv 0 {}", b(dt)).unwrap(); }
             writeln!(out, "adv 1 {}", b(n as f32 * dt)).unwrap();
             writeln!(out, "# eq C06 1 2").unwrap();
